@@ -66,6 +66,31 @@ func (c02) Plan(tier string, seed int64) []core.Scenario {
 		}
 		out = append(out, core.Sc("perm").WithS("transport", tr).WithN("n", n).WithN("noise", 1+i%2).WithN("stall", i%4).WithL(rng.Perm(n)))
 	}
+	// well beyond any plausible internal bound on simultaneously running handlers
+	bigN := []int{129, 200, 300}
+	if tier == "thorough" {
+		bigN = []int{129, 130, 200, 257, 300, 513, 1000}
+	}
+	for i, n := range bigN {
+		tr := "ws"
+		if i%3 == 2 {
+			tr = "http"
+		}
+		perm := rng.Perm(n)
+		if i%2 == 0 { // reverse completion order: the last request finishes first
+			for j := range perm {
+				perm[j] = n - 1 - j
+			}
+		}
+		out = append(out, core.Sc("perm").WithS("transport", tr).WithN("n", n).WithN("noise", 0).WithN("stall", 0).WithL(perm))
+	}
+	nx := 4
+	if tier == "thorough" {
+		nx = 60
+	}
+	for i := 0; i < nx; i++ {
+		out = append(out, core.Sc("across-reconnect").WithN("workers", 4+i%5).WithN("fk", i%2).WithN("noise", i%3))
+	}
 	for i := 0; i < nKV; i++ {
 		tr := "ws"
 		if i%5 == 4 {
@@ -101,6 +126,8 @@ func (p c02) Run(sc core.Scenario) core.Result {
 		p.confused(sc, r)
 	case "cancel-late":
 		p.cancelLate(sc, r)
+	case "across-reconnect":
+		p.acrossReconnect(sc, r)
 	}
 	return r.Result()
 }
@@ -218,6 +245,77 @@ func (c02) perm(sc core.Scenario, r *core.R) {
 	if n <= 6 {
 		r.Sample(map[string]interface{}{"transport": tr, "n": n, "release_order": sc.L, "kinds": kinds})
 	}
+}
+
+// acrossReconnect: several goroutines keep calling while the connection is lost once and re-established;
+// every call must return exactly once - its own result or an error - and none may stay blocked once a later
+// probe has round-tripped.
+func (c02) acrossReconnect(sc core.Scenario, r *core.R) {
+	env := NewEnv(EnvOpt{})
+	defer env.Shutdown()
+	pol := noisePolicy(sc)
+	defer pol.Install()()
+	cl, err := env.NewClient(ClientOpt{Opts: []jsonrpc.Option{jsonrpc.WithReconnectBackoff(10*time.Millisecond, 30*time.Millisecond)}})
+	if err != nil {
+		r.Inconclusive("client: %v", err)
+		return
+	}
+	bg := context.Background()
+	var mu sync.Mutex
+	var outs []*Outcome
+	stop := make(chan struct{})
+	var wg sync.WaitGroup
+	for w := 0; w < sc.I("workers"); w++ {
+		wg.Add(1)
+		go func() {
+			defer wg.Done()
+			for {
+				select {
+				case <-stop:
+					return
+				default:
+				}
+				t := Tok("x")
+				o := Go(t, func() (string, error) { return cl.Echo(bg, t, "") })
+				mu.Lock()
+				outs = append(outs, o)
+				mu.Unlock()
+				o.Wait(300 * time.Millisecond) // keep issuing even if one call is stuck
+				time.Sleep(time.Millisecond)
+			}
+		}()
+	}
+	time.Sleep(30 * time.Millisecond)
+	env.Px.KillAll([]string{wsproxy.RST, wsproxy.FIN}[sc.I("fk")])
+	time.Sleep(120 * time.Millisecond)
+	close(stop)
+	wg.Wait()
+	if !probeUntilHealthy(cl, r, 2*core.Grace) {
+		r.Inconclusive("link never healthy again")
+		return
+	}
+	mu.Lock()
+	all := append([]*Outcome(nil), outs...)
+	mu.Unlock()
+	failed := 0
+	for _, o := range all {
+		if !o.Wait(core.Grace) {
+			r.Violate("response-dropped", "call %s issued around a reconnect never returned although a later probe round-tripped on the same client; events: %s", o.Tok, core.Log.Tail(30))
+			break
+		}
+		if o.Err != nil {
+			failed++
+		} else if o.Val != svc.Reply(o.Tok) {
+			r.Violate("wrong-response", "call %s got %q", o.Tok, o.Val)
+		}
+		if e := env.Svc.Enters(o.Tok); e > 1 {
+			r.Violate("exec-count", "call %s executed %d times", o.Tok, e)
+		}
+	}
+	r.Key(fmt.Sprintf("across-reconnect w=%d fk=%d sig=%s", sc.I("workers"), sc.I("fk"), core.Log.Signature()[:6]), failed > 0)
+	r.Obs("calls", int64(len(all)))
+	r.Sig(core.Log.Signature())
+	r.Sample(map[string]interface{}{"scenario": "concurrent callers across one reconnect", "calls": len(all), "failed_by_the_loss": failed})
 }
 
 // cancelLate: call A is cancelled but its handler keeps running; other calls are issued; then A's
